@@ -55,6 +55,11 @@ ObsCopies(e) ==
   /\ NoDup(e.obs.xn) /\ Either(AsSet(e.obs.xn), MXN', IXN')
   /\ NoDup(e.obs.xe) /\ Either(AsSet(e.obs.xe), MXE', IXE')
   /\ e.obs.xok
+  \* the copy is a graph: its adjacency lists, in both directions, are exactly what its edges say
+  \* (xe rows are <<edge, src, dst>>; xo / xi rows are <<node, neighbour, edge>> for the nodes of the copy)
+  /\ LET cn == {x[1] : x \in AsSet(e.obs.xn)}  ce == AsSet(e.obs.xe) IN
+       /\ NoDup(e.obs.xo) /\ AsSet(e.obs.xo) = {<<x[2], x[3], x[1]>> : x \in {y \in ce : y[2] \in cn}}
+       /\ NoDup(e.obs.xi) /\ AsSet(e.obs.xi) = {<<x[3], x[2], x[1]>> : x \in {y \in ce : y[3] \in cn}}
 ObsX(e, extra) ==
   /\ (IF CopyOnly THEN TRUE ELSE ObsReads(e))
   /\ ObsCopies(e)
